@@ -7,8 +7,8 @@
    not yet covered by a theorem are decided by the implementation <-> specification <->
    hardware differential run only (listed as unproved_forms in the evidence). *)
 From Coq Require Import ZArith Bool List.
-From AxV Require Import Bits Outcome Codes Iced State Rt Mem Trace Exec ExecP FrameTac FrameP ByteStore MemP RegFile RegsP ISA CodeSem IsaP OperandP RmP NoCrashP.
-From AxG Require Import Flags Regs Operand Helpers Dispatch Frame I_add I_sub I_cmp I_and I_xor I_div.
+From AxV Require Import Bits Outcome Codes Iced State Rt Mem Trace Exec ExecP FrameTac FrameP ByteStore MemP RegFile RegsP ISA CodeSem IsaP OperandP RmP NoCrashP StepCrashP.
+From AxG Require Import Flags Regs Operand Helpers Dispatch Frame Unimpl I_add I_sub I_cmp I_and I_xor I_div.
 Local Open Scope Z_scope.
 
 Print Assumptions cond_matches_sdm.
@@ -52,7 +52,66 @@ Theorem C19_alu64_regreg : forall c i s,
   (i_code i = C_Xor_rm64_r64 -> no_crash (fst (instr_xor_rm64_r64 c i s))).
 Proof. exact alu64_regreg_no_crash. Qed.
 
+(* ---- the step function (hand model Exec.v of src/state/execute.rs, tied by the `exec`
+   correspondence) ---- *)
+
+(* "undecodable, unsupported and unimplemented instructions are reported as errors" *)
+Theorem C19_undecodable_is_error : forall decode dispatch c env s bytes,
+  finished s = false ->
+  (match max_instr s with Some limit => limit <=? icount s | None => false end) = false ->
+  mem_read_executable_bytes (regs s RIP) s = (Ok bytes, s) ->
+  decode (regs s RIP) bytes = None ->
+  Exec.step decode dispatch supported_mnemonic_try_from c env s = (Err EDecode, s).
+Proof. exact step_undecodable. Qed.
+
+Theorem C19_unfetchable_is_error : forall decode dispatch c env s e,
+  finished s = false ->
+  (match max_instr s with Some limit => limit <=? icount s | None => false end) = false ->
+  mem_read_executable_bytes (regs s RIP) s = (Err e, s) ->
+  Exec.step decode dispatch supported_mnemonic_try_from c env s = (Err e, s).
+Proof. exact step_unfetchable. Qed.
+
+Theorem C19_unsupported_is_error : forall decode dispatch c env s bytes i e,
+  finished s = false ->
+  (match max_instr s with Some limit => limit <=? icount s | None => false end) = false ->
+  mem_read_executable_bytes (regs s RIP) s = (Ok bytes, s) ->
+  decode (regs s RIP) bytes = Some i ->
+  fst (supported_mnemonic_try_from c (i_mnemonic i) (entered s i)) = Err e ->
+  Exec.step decode dispatch supported_mnemonic_try_from c env s = (Err e, entered s i).
+Proof. exact step_unsupported. Qed.
+
+(* the 128 stubbed forms (opcode_unimplemented!) - the list is read from the regenerated text, the
+   statement is proved for each (gen/Unimpl.v): the dispatcher, and the whole step, return the
+   error value Err EUnimpl in every build configuration, with only RIP advanced *)
+Theorem C19_unimplemented_count : length unimpl_forms = 128%nat.
+Proof. reflexivity. Qed.
+
+Theorem C19_unimplemented_is_error : forall decode c env s bytes i,
+  finished s = false ->
+  (match max_instr s with Some limit => limit <=? icount s | None => false end) = false ->
+  mem_read_executable_bytes (regs s RIP) s = (Ok bytes, s) ->
+  decode (regs s RIP) bytes = Some i ->
+  In (i_mnemonic i, i_code i) unimpl_forms ->
+  env (i_mnemonic i) = None ->
+  Exec.step decode switch_instruction_mnemonic supported_mnemonic_try_from c env s = (Err EUnimpl, entered s i).
+Proof. exact step_unimplemented. Qed.
+
+(* where a crash can come from: with an instruction function that returns Ok/Err, hooks that
+   return Ok/Err and an instruction counter below 2^64-1, the step returns Ok/Err - the fetch, the
+   decoder glue, the mnemonic conversion, the hook runner and the counter add nothing.  (The counter
+   hypothesis is real: in an overflow-checked build the 2^64-th step would panic.) *)
+Theorem C19_step_crash_sources : forall decode dispatch c env s,
+  Inv (mem s) ->
+  (forall i s', no_crash (fst (dispatch c i s'))) ->
+  env_no_crash env ->
+  (forall i s', 0 <= icount (snd (dispatch c i s')) < 2 ^ 64 - 1) ->
+  no_crash (fst (Exec.step decode dispatch supported_mnemonic_try_from c env s)).
+Proof. exact step_no_crash. Qed.
+
 Print Assumptions C19_memory_read.
 Print Assumptions C19_rm64_operand.
 Print Assumptions C19_div_rm64.
 Print Assumptions C19_alu64_regreg.
+Print Assumptions C19_unimplemented_is_error.
+Print Assumptions C19_step_crash_sources.
+Print Assumptions C19_unsupported_is_error.
